@@ -80,4 +80,23 @@ def checkpointReduce (name : Obj) (mk : Nat → Obj) (se : Nat) : Nat → List O
       checkpointReduce name mk se fuel (mapKeys.drop se ++ [k]) (layer ++ [(k, mapKeys.take se)])
     else layer ++ [(name, mapKeys)]
 
+/-! ### `Blockwise.clone`: which regenerated layers are leaves (and therefore bound to the blocker) -/
+
+/-- an entry of `Blockwise.indices`: a collection name, a `TaskRef` (Delayed / Item / scalar passed as an argument),
+    or a literal -/
+inductive BwArg where
+  | name (k : Obj)
+  | ref (k : Obj)
+  | other
+  deriving Repr, Inhabited
+
+/-- `is_leaf` of `Blockwise.clone`: no argument and no `numblocks` entry names a collection that is being regenerated.
+    A `TaskRef` to a key that is *not* regenerated (an omitted collection) leaves the layer a leaf. -/
+def blockwiseLeaf (names : List Obj) (indices : List BwArg) (numblocks : List Obj) : Bool :=
+  !(indices.any fun
+      | .name k => names.contains k
+      | .ref k => names.contains k
+      | .other => false) &&
+  !(numblocks.any fun k => names.contains k)
+
 end Dask.TaskTerm
